@@ -151,7 +151,7 @@ def run(rep, tier, seed, tr_errors):
     ]
     thm_ok, names, out = lib.check_props_file(rep, PROPS_FILE, expect=["C03_container_scope", "C03_one_node_per_step", "C03_basic_text_lexes_exactly", "C03_builtin_registry_symbols_valid",
                                                                     "C03_basic_round_trip", "C03_basic_round_trip_parse", "C03_basic_whitespace_insensitive", "C03_basic_implicit_outer_series", "C03_basic_round_trip_applies",
-                                                                    "C03_extended_round_trip_tokens", "C03_constructor_rebuilds_the_element", "C03_extended_round_trip", "C03_printed_number_shape", "C03_extended_round_trip_applies"])
+                                                                    "C03_extended_round_trip_tokens", "C03_constructor_rebuilds_the_element", "C03_extended_round_trip", "C03_extended_round_trip_parse", "C03_printed_number_shape", "C03_extended_round_trip_applies"])
     thm_ok2, _, _ = lib.check_props_file(rep, "Props/C03_Sem.v", expect=["C03_basic_round_trip_same_impedance", "C03_implicit_series_same_impedance", "C03_parse_results_well_formed"])
     thm_ok = thm_ok and thm_ok2
     n_rt = 250 if tier == "quick" else 5000
